@@ -5,6 +5,7 @@ at objective-call and store-synchronisation granularity (thorough: additionally 
 datastore.py), with the SQLite busy-timeout as an environment choice.
 """
 import json
+import threading
 import os
 import sqlite3
 import tempfile
@@ -63,7 +64,8 @@ def run_batch(ctx, ntasks, store, fine, faults, real_joblib=False):
     iterator = faults == "iterator"        # the batch is handed over as a one-shot iterator
     abort = faults == "abort"              # the last design fails five times: the call raises, what was evaluated before stays stored
     serialise = faults == "serialise"      # a scheduling point INSIDE the serialisation of a design (while its row is being built)
-    if constrained or extlock or unregistered or mixedcls or procs != 2 or dupvec or iterator or abort or serialise:
+    nppoints = faults == "nppoints"        # scheduling points after every numpy call made by artap.individual (below line granularity)
+    if constrained or extlock or unregistered or mixedcls or procs != 2 or dupvec or iterator or abort or serialise or nppoints:
         faults = False
     key = ("p", constrained)
     env = Env.cache.get(key)
@@ -154,8 +156,29 @@ def run_batch(ctx, ntasks, store, fine, faults, real_joblib=False):
         except BaseException as e:  # noqa
             exc = e
     else:
+        import artap.individual as _indmod
+        real_np = _indmod.np
+
+        class NumpyPoints:
+            """artap.individual's view of numpy: every call is followed by a scheduling point (two library calls in one source
+            line can be separated by a thread switch)."""
+            def __getattr__(self, name):
+                attr = getattr(real_np, name)
+                if not callable(attr) or isinstance(attr, type):
+                    return attr
+
+                def call(*a, **k):
+                    r = attr(*a, **k)
+                    h = env["holder"]
+                    sch = h.get("sched") if h else None
+                    if sch is not None and threading.get_ident() in getattr(sch, "by_ident", {}):
+                        sch.point("np:%s" % name)
+                    return r
+                return call
         with scheduled(ctx, fine=fine, db=store, extlock=extlock) as holder:
             env["holder"] = holder
+            if nppoints:
+                _indmod.np = NumpyPoints()
             try:
                 if iterator:
                     alg.evaluator.evaluate(iter(batch))        # the evaluator takes any iterable, also a one-shot one
@@ -167,6 +190,7 @@ def run_batch(ctx, ntasks, store, fine, faults, real_joblib=False):
                 exc = e
             finally:
                 env["holder"] = None
+                _indmod.np = real_np
         sch = holder.get("sched")
         info = {"trace": list(sch.trace) if sch else [], "deadlock": sch.deadlock if sch else None,
                 "conflicts": holder["hooks"].lock_conflicts, "points": sch.points if sch else 0, "calls": list(env["calls"])}
@@ -284,7 +308,7 @@ def judge(problem, batch, exc, rows, info, store, faults, desc):
     out = []
     constrained = faults == "constrained"
     abort = faults == "abort"
-    if constrained or faults in ("extlock", "unregistered", "mixedcls", "dupvec", "iterator", "abort", "serialise") or (isinstance(faults, str) and faults.startswith("procs")):
+    if constrained or faults in ("extlock", "unregistered", "mixedcls", "dupvec", "iterator", "abort", "serialise", "nppoints") or (isinstance(faults, str) and faults.startswith("procs")):
         faults = False
 
     def bad(key, msg):
@@ -469,7 +493,8 @@ def run(tier, seed):
                   ("explore", 2, True, False, "unregistered", 3), ("explore", 33, True, False, "unregistered", 0), ("explore", 129, True, False, "unregistered", 0),
                   ("explore", 3, True, False, "mixedcls", 2), ("explore", 9, True, False, "mixedcls", 1),
                   ("explore", 4, True, False, "dupvec", 2), ("explore", 3, False, False, "dupvec", 3), ("explore", 3, True, False, "iterator", 2), ("explore", 1, False, False, "iterator", 1),
-                  ("explore", 3, True, False, "abort", 2), ("explore", 4, True, False, "abort", 1), ("explore", 2, True, False, "serialise", 3), ("explore", 3, True, False, "serialise", 2)]
+                  ("explore", 3, True, False, "abort", 2), ("explore", 4, True, False, "abort", 1), ("explore", 2, True, False, "serialise", 3), ("explore", 3, True, False, "serialise", 2),
+                  ("explore", 2, False, False, "nppoints", 3), ("explore", 3, True, False, "nppoints", 2)]
     else:
         shards = [("explore", 2, False, False, False, None), ("explore", 2, True, False, False, 3),
                   ("explore", 3, False, False, False, 3), ("explore", 3, True, False, False, 2),
@@ -485,7 +510,8 @@ def run(tier, seed):
                   ("explore", 2, True, False, "unregistered", 1), ("explore", 33, True, False, "unregistered", 0), ("explore", 65, True, False, "unregistered", 0),
                   ("explore", 3, True, False, "mixedcls", 1), ("explore", 9, True, False, "mixedcls", 0),
                   ("explore", 4, True, False, "dupvec", 1), ("explore", 3, False, False, "dupvec", 2), ("explore", 3, True, False, "iterator", 1), ("explore", 1, False, False, "iterator", 1),
-                  ("explore", 3, True, False, "abort", 1), ("explore", 4, True, False, "abort", 0), ("explore", 2, True, False, "serialise", 2), ("explore", 3, True, False, "serialise", 1)]
+                  ("explore", 3, True, False, "abort", 1), ("explore", 4, True, False, "abort", 0), ("explore", 2, True, False, "serialise", 2), ("explore", 3, True, False, "serialise", 1),
+                  ("explore", 2, False, False, "nppoints", 2), ("explore", 3, True, False, "nppoints", 1)]
     gb = 3 if tier == "thorough" else 2
     shards += [("gradient", 1, False, gb), ("gradient", 1, True, gb), ("gradient", 2, False, gb - 1), ("gradient", 2, True, gb - 1)]
     split = []
